@@ -1,5 +1,6 @@
 """C18 — programs reported equal or equivalent really compute the same thing."""
 import copy
+import math
 
 import numpy as np
 
@@ -24,10 +25,19 @@ ASSUMPTIONS = ["parameters are numeric in generated pairs; '==' on them is model
 NAMES = sorted(sfgen.ALL)
 
 
+SPECIAL_BS = [[math.pi / 4, 0.0], [math.pi / 4, math.pi / 2], [math.pi / 4, 0.3], [0.3, math.pi / 2], [math.pi / 4, math.pi], [3 * math.pi / 4, 0.0]]
+
+
 def mutate(rng, spec):
     """Return (kind, q) with q a variant of spec."""
     q = copy.deepcopy(spec)
     cm = q["cmds"]
+    # sprinkle beamsplitters at / near the parameter values the equivalence test treats specially
+    if q["n"] >= 2 and rng.random() < 0.35:
+        a, b = rng.sample(range(q["n"]), 2)
+        c = ["BSgate", list(rng.choice(SPECIAL_BS)), [a, b], False]
+        cm.insert(rng.randint(0, len(cm)), c)
+        spec["cmds"].insert(cm.index(c), copy.deepcopy(c))
     kinds = ["same", "prefix", "extend", "dagger", "param", "modes", "class", "swap", "relabel", "dropmid"]
     kind = rng.choice(kinds)
     if kind == "prefix" and cm:
@@ -42,11 +52,16 @@ def mutate(rng, spec):
         if idx:
             i = rng.choice(idx)
             j = rng.randrange(len(cm[i][1]))
-            cm[i][1][j] = cm[i][1][j] + rng.choice([0.5, -0.25, 1e-3])
+            # large and tiny perturbations: comparison must not round parameters
+            cm[i][1][j] = cm[i][1][j] + rng.choice([0.5, -0.25, 1e-3, 2e-5, 3e-6, -4e-6])
         else:
             kind = "same"
     elif kind == "modes" and cm and q["n"] >= 2:
-        i = rng.randrange(len(cm))
+        two = [k for k, c in enumerate(cm) if len(c[2]) == 2]
+        i = rng.choice(two) if two and rng.random() < 0.6 else rng.randrange(len(cm))
+        if len(cm[i][2]) == 2 and rng.random() < 0.7:
+            cm[i][2] = list(reversed(cm[i][2]))
+            return kind, q
         nm = len(cm[i][2])
         new = rng.sample(range(q["n"]), nm)
         if new == cm[i][2]:
